@@ -33,6 +33,23 @@ theorem C13_decode_encode_canonical (env : Env) (v : Value) (bs : Bytes)
     ∀ rest, decode env (bs ++ rest) = .ok (v, rest) :=
   fun rest => dec_enc env v bs v hw he hc _ rest (by simp; omega)
 
+/-- Encodings are prefix-free (self-delimiting): if the encoding of one in-domain value is a
+prefix of the encoding of another, the two encodings are the same bytes and the two values have
+the same canonical form - no encoding can be mistaken for the beginning of another. -/
+theorem C13_prefix_free (env : Env) (v1 v2 : Value) (b1 t : Bytes)
+    (h1 : InDomain env v1) (h2 : InDomain env v2)
+    (e1 : encode env v1 = .ok b1) (e2 : encode env v2 = .ok (b1 ++ t)) :
+    t = [] ∧ canon v1 = canon v2 := by
+  obtain ⟨c1, hc1, d1⟩ := C13_decode_encode env v1 b1 h1 e1
+  obtain ⟨c2, hc2, d2⟩ := C13_decode_encode env v2 (b1 ++ t) h2 e2
+  have a := d1 t
+  have b := d2 []
+  rw [List.append_nil] at b
+  rw [a] at b
+  injection b with b
+  injection b with b1' b2'
+  exact ⟨b2', by rw [hc1, hc2, b1']⟩
+
 /-- encoder / canonical form lifted to a list of independent values -/
 def encodeAll (env : Env) : List Value → Except Err (List Bytes)
   | [] => .ok []
